@@ -5,7 +5,14 @@ import ast
 from ..effects import is_self, self_attr, walk_no_nested
 from ..engine import AnalysisError, norm_stmt
 from . import common
-from .formulas import get_func
+from .formulas import get_func as _get_func_raw
+
+_ENG = [None]
+
+
+def get_func(p, cname, fname):
+    """the anchor function in canonical form (kv/canon.py): private helpers written out, aliases resolved, exits / negations / keywords in one form"""
+    return _ENG[0].cfunc(_get_func_raw(p, cname, fname), paths=False)
 
 
 def _txt(n):
@@ -36,6 +43,7 @@ def _first_fit_arg(c, pos):
 
 def run(eng, R):
     p = eng.p
+    _ENG[0] = eng
     R.rule("F5", "do_fit: data-referenced model errors before the first pass; every minimiser run is bracketed by _pre_fit_iteration / _post_fit_iteration with the same "
                  "first_fit flag; every later pass resets the minimiser between freeze and fit; a refit happens iff dynamic uncertainties exist (iterative: until the cost "
                  "converges; nonlinear: once)", 10)
@@ -50,7 +58,7 @@ def run(eng, R):
                       "free parameters; parameter values are stored as floats; the final values are written back to the graph", 10)
 
     # ------------------------------------------------------------------ F5
-    df = get_func(p, "FitBase", "do_fit")
+    df = get_func(p, "FitBase", "do_fit")  # canonical: a refit block moved into a private helper is written out
     g = eng.cfg(df)
     pre, post, fit, reset, ref = [], [], [], [], []
     for n in g.nodes:
@@ -73,6 +81,8 @@ def run(eng, R):
     post_ids = {n.id for n, _ in post}
     reset_ids = {n.id for n, _ in reset}
     ref_ids = {n.id for n, _ in ref}
+    # `self._post_fit_iteration(self._fitter.do_fit(), ...)`: the run is an argument of its own post call (one statement)
+    post_same = {n.id: c for n, c in post if any(_fitter_call(x, "do_fit") for a in list(c.args) + [k.value for k in c.keywords] for x in ast.walk(a) if isinstance(x, ast.Call))}
     # the first minimiser run: reachable from entry without passing another run
     first = [n for n, _ in fit if g.find_path(g.entry.id, lambda m, n=n: m.id == n.id, exceptional=False, avoid=lambda m, n=n: m.id in fit_ids and m.id != n.id, strict=False)]
     later = [n for n, _ in fit if any(g.find_path(o.id, lambda m, n=n: m.id == n.id, exceptional=False) for o, _ in fit)]
@@ -89,12 +99,12 @@ def run(eng, R):
                 bad = path
         R.ob("F5", "FitBase.do_fit:pre before run@%s" % ("first" if n in first and n not in later else "later"), bad is None, (df.file, n.lineno),
              "a minimiser run can be reached without a fresh _pre_fit_iteration (nodes are not frozen for this pass)")
-        path = g.find_path(n.id, lambda m: m.id == g.exit.id or m.id in fit_ids, exceptional=False, avoid=lambda m: m.id in post_ids)
+        path = None if n.id in post_same else g.find_path(n.id, lambda m: m.id == g.exit.id or m.id in fit_ids, exceptional=False, avoid=lambda m: m.id in post_ids)
         R.ob("F5", "FitBase.do_fit:post after run@%s" % ("first" if n in first and n not in later else "later"), path is None, (df.file, n.lineno),
              "after a minimiser run the function can return / refit without _post_fit_iteration: nodes stay frozen at the values of the previous pass")
         # flags of the bracketing calls
         pf = {_first_fit_arg(pc, 0) for pn, pc in pre if g.find_path(pn.id, lambda m, n=n: m.id == n.id, exceptional=False, avoid=lambda m, n=n: m.id != n.id and m.id in pre_ids | fit_ids)}
-        qf = {_first_fit_arg(qc, 1) for qn, qc in post if g.find_path(n.id, lambda m, qn=qn: m.id == qn.id, exceptional=False, avoid=lambda m, qn=qn: m.id != qn.id and m.id in post_ids | fit_ids)}
+        qf = {_first_fit_arg(post_same[n.id], 1)} if n.id in post_same else {_first_fit_arg(qc, 1) for qn, qc in post if g.find_path(n.id, lambda m, qn=qn: m.id == qn.id, exceptional=False, avoid=lambda m, qn=qn: m.id != qn.id and m.id in post_ids | fit_ids)}
         R.ob("F5", "FitBase.do_fit:same flag@%s" % ("first" if n in first and n not in later else "later"), len(pf) == 1 and pf == qf, (df.file, n.lineno),
              "pre and post iteration around one run use different first_fit flags (%s vs %s): the nodes frozen are not the nodes released" % (sorted(pf), sorted(qf)))
         want_first = "True" if (n in first and n not in later) else "False"
@@ -302,13 +312,13 @@ def run(eng, R):
     ok = bool(sets) and bool(fixes) and "if value is not None: self.set_fit_parameter_values(**{name: value})" in src \
         and all(g.find_path(fx.id, lambda m, s=s: m.id == s.id, exceptional=False) is None for fx in fixes for s in sets)
     R.ob("S-fix", "%s.fix_parameter:value first" % NF, ok, (f.file, f.lineno), "a value given with fix_parameter must be set (graph and backend) before the parameter is fixed")
-    R.ob("S-fix", "%s.fix_parameter:recorded value" % NF, "_fixed_par_dict = self.get_fit_parameter_values([name])" in src and "self._fixed_pars.update(_fixed_par_dict)" in src, (f.file, f.lineno),
+    R.ob("S-fix", "%s.fix_parameter:recorded value" % NF, "self._fixed_pars.update(self.get_fit_parameter_values([name]))" in src, (f.file, f.lineno),
          "the recorded fixed value must be the value the graph holds for that name")
     f = get_func(p, NF, "_minimize")
     g = eng.cfg(f)
     mins = [n for n in g.nodes if any(isinstance(c.func, ast.Attribute) and c.func.attr == "minimize" and self_attr(c.func.value) == "_minimizer" for c in _calls_in(n))]
     src = _txt(f.node)
-    ok = len(mins) == 1 and "_par_vals = self._minimizer.parameter_values" in src and "self._fcn_wrapper(*_par_vals)" in src
+    ok = len(mins) == 1 and "self._fcn_wrapper(*self._minimizer.parameter_values)" in src
     if ok:
         ok, _ = g.all_paths_pass(mins[0].id, lambda n: any(_self_call(c, "_fcn_wrapper") for c in _calls_in(n)))
     R.ob("S-fix", "%s._minimize:sync" % NF, ok, (f.file, f.lineno), "after the backend returns, the graph must be evaluated once more at the backend's final parameter values")
@@ -386,8 +396,7 @@ def run(eng, R):
             R.ob("S-imin", "%s._get_iminuit:%s" % (IM, attr), good, (f.file, lp.lineno),
                  "every rebuild must apply the stored %s of every parameter unconditionally (a parameter that is released later keeps what the live object was built with)" % attr)
         src = _txt(f.node)
-        R.ob("S-imin", "%s._get_iminuit:values" % IM, "_parameter_values = [self._minimizer_param_dict[_pn] for _pn in self.parameter_names]" in src
-             and "iminuit.Minuit(self._func_wrapper, *_parameter_values, name=self.parameter_names)" in src, (f.file, f.lineno), "the Minuit object must start from the stored value of every parameter, in order")
+        R.ob("S-imin", "%s._get_iminuit:values" % IM, src.like("iminuit.Minuit(self._func_wrapper, *[self._minimizer_param_dict[_pn] for _pn in self.parameter_names], name=self.parameter_names)"), (f.file, f.lineno), "the Minuit object must start from the stored value of every parameter, in order")
         R.ob("S-imin", "%s._get_iminuit:v1" % IM, "**self._minimizer_param_dict" in src, (f.file, f.lineno), "iminuit 1: the whole stored specification is passed to Minuit")
     spec = {"fix": ("'fix_' + parameter_name", "True", "live"), "release": ("'fix_' + parameter_name", "False", "live"),
             "limit": ("'limit_' + parameter_name", "(parameter_bounds[0], parameter_bounds[1])", "reset"), "unlimit": ("'limit_' + parameter_name", "None", "reset"),
@@ -428,38 +437,25 @@ def run(eng, R):
     SC = "MinimizerScipyOptimize"
     f = get_func(p, SC, "minimize")
     src = _txt(f.node)
-    loops = [n for n in ast.walk(f.node) if isinstance(n, ast.For) and _txt(n.iter) == "enumerate(self._par_fixed)"]
-    ok = False
-    detail = ""
-    if loops:
-        lp = loops[0]
-        body = [s for s in lp.body if isinstance(s, ast.If)]
-        if len(body) == 1 and isinstance(lp.target, ast.Tuple):
-            iv, fv = lp.target.elts[0].id, lp.target.elts[1].id
-            i = body[0]
-            fixed_b = [_txt(s) for s in i.body]
-            free_b = [_txt(s) for s in i.orelse]
-            ok = _txt(i.test) == fv and fixed_b == ["_position_indices[%s] = %s" % (iv, iv), "_n_fixed_parameters += 1"] \
-                and free_b == ["_position_indices[%s] = %s - _n_fixed_parameters" % (iv, iv), "_par_vals.append(self.parameter_values[%s])" % iv]
-            detail = "fixed: %s free: %s" % (fixed_b, free_b)
+    # canonical form; the locals are placeholders (`_pos` position map, `_nfix` running count of fixed parameters, `_vals` free start values, `_dyn` 2-row table,
+    # `_sel` row selector) - bound jointly, so exchanging two of them between statements is not the same thing
+    ok = src.like("for _i, _f in enumerate(self._par_fixed): if _f: _pos[_i] = _i _nfix += 1 else: _pos[_i] = _i - _nfix _vals.append(self.parameter_values[_i])")
     R.ob("S-scipy", "%s.minimize:index map" % SC, ok, (f.file, f.lineno),
          "the position of a fixed parameter is its own index (row of stored values), the position of a free one is its index minus the number of fixed parameters before it "
-         "(row of minimiser arguments), and exactly the free ones are handed to scipy in order (%s)" % detail)
-    ok = "_n_fixed_parameters = 0" in src and "_par_vals = []" in src and "_par_fixed_indices = np.array(self._par_fixed, dtype=int)" in src \
-        and "_dyn_and_fixed_args = np.zeros(shape=(2,) + self.parameter_values.shape)" in src and "_dyn_and_fixed_args[1] = self.parameter_values" in src
+         "(row of minimiser arguments), and exactly the free ones are handed to scipy in order")
+    ok = src.all_like("_nfix = 0", "_vals = []", "_sel = np.array(self._par_fixed, dtype=int)", "_dyn = np.zeros(shape=(2,) + self.parameter_values.shape)", "_dyn[1] = self.parameter_values")
     R.ob("S-scipy", "%s.minimize:rows" % SC, ok, (f.file, f.lineno), "row 0 holds the minimiser arguments, row 1 the stored (fixed) values; the row selector is 1 exactly for fixed parameters")
-    packs = [s for s in ast.walk(f.node) if isinstance(s, ast.Assign) and isinstance(s.targets[0], ast.Subscript) and _txt(s.targets[0].value) == "_dyn_and_fixed_args"
-             and _txt(s.targets[0].slice) != "1"]
-    sels = [s for s in ast.walk(f.node) if isinstance(s, ast.Assign) and isinstance(s.value, ast.Subscript) and _txt(s.value.value) == "_dyn_and_fixed_args"]
-    ok = len(packs) == 2 and len({_txt(s.targets[0]) for s in packs}) == 1 and _txt(packs[0].targets[0]) == "_dyn_and_fixed_args[0, 0:-_n_fixed_parameters]" \
-        and {_txt(s.value) for s in packs} == {"args", "self._opt_result.x"} and len(sels) == 2 and {_txt(s.value) for s in sels} == {"_dyn_and_fixed_args[_par_fixed_indices, _position_indices]"} \
-        and {_txt(s.targets[0]) for s in sels} == {"_selected_values", "self._par_val"}
+    ok = src.all_like("def _fn(_args): _dyn[0, 0:-_nfix] = _args return self._func_wrapper_unpack_args(_dyn[_sel, _pos])", "_dyn[0, 0:-_nfix] = self._opt_result.x self._par_val = _dyn[_sel, _pos]")
+    dyn = src._binding.get("_dyn")
+    stores = [s_ for s_ in ast.walk(f.node) if isinstance(s_, (ast.Assign, ast.AugAssign)) for t in (s_.targets if isinstance(s_, ast.Assign) else [s_.target])
+              if isinstance(t, ast.Subscript) and _txt(t.value) == dyn]
+    ok = ok and len(stores) == 3  # row 1 once, row 0 in the objective and after the minimisation - nothing else writes the table
     R.ob("S-scipy", "%s.minimize:pack = unpack" % SC, ok, (f.file, f.lineno),
          "the objective and the result must be re-packed with the same expressions: arguments into row 0, selection by (fixed selector, position)")
-    ok = "return self._func_wrapper_unpack_args(_selected_values)" in src and "_func = self._func_wrapper_unpack_args" in src
-    R.ob("S-scipy", "%s.minimize:objective" % SC, ok, (f.file, f.lineno), "the objective must evaluate the cost at the re-packed full parameter vector")
-    bl = [n for n in ast.walk(f.node) if isinstance(n, ast.For) and _txt(n.iter) == "enumerate(self._par_fixed)" and "_par_bounds.append" in _txt(n)]
-    ok = len(bl) == 1 and _txt(bl[0].body[0]) == "if not _par_fixed: _par_bounds.append(self._par_bounds[_par_index])" and "bounds=_par_bounds" in src
+    ok = src.like("_fn = self._func_wrapper_unpack_args") and (src.like("opt.minimize(_fn, _vals, ") or src.all_like("_x0 = _vals", "_x0 = self.parameter_values", "opt.minimize(_fn, _x0, "))
+    R.ob("S-scipy", "%s.minimize:objective" % SC, ok, (f.file, f.lineno), "the objective must evaluate the cost at the re-packed full parameter vector, starting from the free values")
+    src2 = eng.csrc(f)  # (own binding: the comprehension has its own variables)
+    ok = src2.all_like("_bnd = None if self._par_bounds is None else [self._par_bounds[_j] for _j, _g in enumerate(self._par_fixed) if not _g]", "_bnd = self._par_bounds", "bounds=_bnd")
     R.ob("S-scipy", "%s.minimize:bounds" % SC, ok, (f.file, f.lineno), "the bounds handed to scipy must be those of the free parameters, in order")
     g = eng.cfg(f)
     opt = [n for n in g.nodes if any(_txt(c.func) == "opt.minimize" for c in _calls_in(n))]
@@ -471,19 +467,21 @@ def run(eng, R):
     for fn, val in (("fix", "True"), ("release", "False")):
         f = get_func(p, SC, fn)
         src = _txt(f.node)
-        ok = "_par_id = self._par_names.index(parameter_name)" in src and "self._par_fixed[_par_id] = %s" % val in src and "self._invalidate_cache()" in src
+        ok = "self._par_fixed[self._par_names.index(parameter_name)] = %s" % val in src and "self._invalidate_cache()" in src
         R.ob("S-scipy", "%s.%s" % (SC, fn), ok, (f.file, f.lineno), "%s must set the fixed flag of the named parameter to %s and invalidate cached results" % (fn, val))
     f = get_func(p, SC, "limit")
     src = _txt(f.node)
-    ok = "self._par_bounds[_par_id] = parameter_bounds" in src and "_par_id = self._par_names.index(parameter_name)" in src \
-        and "if parameter_bounds[0] is not None and self._par_val[_par_id] < parameter_bounds[0]: self.set(parameter_name, parameter_bounds[0])" in src \
-        and "elif parameter_bounds[1] is not None and self._par_val[_par_id] > parameter_bounds[1]: self.set(parameter_name, parameter_bounds[1])" in src
+    IDX = "self._par_names.index(parameter_name)"
+    pats = ["self._par_bounds[%s] = parameter_bounds", "if parameter_bounds[0] is not None and self._par_val[%s] < parameter_bounds[0]: self.set(parameter_name, parameter_bounds[0])",
+            "elif parameter_bounds[1] is not None and self._par_val[%s] > parameter_bounds[1]: self.set(parameter_name, parameter_bounds[1])"]
+    # the index may be held in a local (it is computed before `set` is called) or written out
+    ok = common.like_any(src, ["_id = " + IDX] + [x % "_id" for x in pats], [x % IDX for x in pats])
     R.ob("S-scipy", "%s.limit" % SC, ok, (f.file, f.lineno), "limit must store the bounds of the named parameter and move a value outside them onto the nearest bound")
     f = get_func(p, SC, "unlimit")
-    R.ob("S-scipy", "%s.unlimit" % SC, "self._par_bounds[_par_id] = (None, None)" in _txt(f.node), (f.file, f.lineno), "unlimit must clear the bounds of the named parameter")
+    R.ob("S-scipy", "%s.unlimit" % SC, "self._par_bounds[self._par_names.index(parameter_name)] = (None, None)" in _txt(f.node), (f.file, f.lineno), "unlimit must clear the bounds of the named parameter")
     f = get_func(p, SC, "set")
     src = _txt(f.node)
-    R.ob("S-scipy", "%s.set" % SC, "self._par_val[_par_id] = parameter_value" in src and "_par_id = self._par_names.index(parameter_name)" in src and "self.reset()" in src, (f.file, f.lineno),
+    R.ob("S-scipy", "%s.set" % SC, "self._par_val[self._par_names.index(parameter_name)] = parameter_value" in src and "self.reset()" in src, (f.file, f.lineno),
          "set must store the value at the index of the named parameter and reset cached results")
     # float storage: the value store is written element-wise, so it must never be created from user input without a float dtype
     n_st = 0
